@@ -72,7 +72,58 @@ def gen_content(rng, want_ia_on_var):
     return {"vars": vars_, "pars": pars, "derived": derived, "rxns": rxns, "surs": []}
 
 
+def gen_relaxing(rng):
+    """linear relaxing network: constant influx, first-order transfer down a chain, first-order efflux.
+    Every rate constant > 0 => a unique stable steady state; a zero efflux constant (or the `open` variant
+    without efflux) => the last pool grows for ever: NO steady state."""
+    n = rng.randint(1, 3)
+    vars_ = [[f"x{i}", {"v": rng.choice(VALS)}] for i in range(n)]
+    pars = [["kin", {"v": rng.choice(["1", "2", "1/2"])}]] + [[f"k{i}", {"v": rng.choice(["1", "1/2", "3/2"])}] for i in range(n)]
+    influx = "kin"
+    if rng.random() < 0.6:  # influx computed from an initial value (initial assignment)
+        pars.append(["q0", {"ia": {"args": ["x0", "kin"], "e": ["+", ["a", 0], ["a", 1]]}}])
+        influx = "q0"
+    rxns = [["r_in", {"args": [influx], "e": ["*", ["c", "1/2"], ["a", 0]], "st": [["x0", {"c": "1"}]]}]]
+    open_end = rng.random() < 0.08
+    for i in range(n):
+        if i == n - 1 and open_end:
+            break
+        st = [[f"x{i}", {"c": "-1"}]] + ([[f"x{i + 1}", {"c": "1"}]] if i + 1 < n else [])
+        rxns.append([f"r{i}", {"args": [f"k{i}", f"x{i}"], "e": ["*", ["a", 0], ["a", 1]], "st": st}])
+    derived = [["d0", {"args": ["x0", f"x{n - 1}"], "e": ["+", ["a", 0], ["a", 1]]}]] if rng.random() < 0.4 else []
+    return {"vars": vars_, "pars": pars, "derived": derived, "rxns": rxns, "surs": []}
+
+
+def gen_relaxing_case(rng, big=False):
+    """steady-state scan of a relaxing network: most rows converge, rows with a zero efflux constant do not"""
+    content = gen_relaxing(rng)
+    n = len(content["vars"])
+    last_k = f"k{n - 1}"
+    cols = ["x0"] if rng.random() < 0.7 else []
+    for c in rng.sample(["kin", last_k] + [f"x{i}" for i in range(1, n)], rng.randint(0 if cols else 1, 2)):
+        if c not in cols:
+            cols.append(c)
+    rng.shuffle(cols)
+    nrows = rng.choice([9, 17]) if big else rng.choice([1, 2, 3, 3, 4, 5])
+    rows = []
+    for _ in range(nrows):
+        rows.append([("0" if (c == last_k and rng.random() < 0.15) else rng.choice(["1", "2", "1/2", "3/2"])) for c in cols])
+    labels = list(range(nrows)) if rng.random() < 0.6 else rng.sample(range(100), nrows)
+    case = {"content": content, "y0": None if rng.random() < 0.8 else [["x0", rng.choice(VALS)]], "cols": cols,
+            "rows": [[l, r] for l, r in zip(labels, rows)], "kind": "ss", "fail_rows": [],
+            "order": [rng.randrange(nrows) for _ in range(rng.randint(0, nrows))]}
+    if rng.random() < 0.4:
+        case["cfg"] = None  # shipped integrator: real convergence test
+    else:
+        case["cfg"] = {"nss": rng.choice([32, 40, 48]), "h": "1/2", "fail": [], "tol": rng.choice(["1/64", "1/256"])}
+        if rng.random() < 0.2 and nrows > 1:
+            case["fail_rows"] = [rng.randrange(nrows)]
+    return case
+
+
 def gen_case(rng, tier_thorough=False, kind=None, big=False):
+    if kind is None and rng.random() < 0.22:
+        return gen_relaxing_case(rng, big)
     want = rng.random() < 0.6
     content = gen_content(rng, want)
     vnames = [k for k, _ in content["vars"]]
@@ -121,7 +172,7 @@ def gen_case(rng, tier_thorough=False, kind=None, big=False):
         case["proto"] = proto
         case["steps"] = rng.choice([1, 2, 2, 3, 4])
     # integrator: the toy Euler (also modelled in Lean), sometimes with failing rows; or the shipped default
-    if rng.random() < 0.8:
+    if rng.random() < (0.95 if kind == "ss" else 0.8):  # steady states with the shipped integrator: see gen_relaxing_case
         case["cfg"] = {"nss": rng.randint(1, 4), "h": rng.choice(["1/4", "1/8", "1/2"]), "fail": []}
         r = rng.random()
         nfail = 0 if r < 0.45 else (nrows if r > 0.92 else rng.randint(1, max(1, nrows // 2)))
@@ -134,7 +185,9 @@ def gen_case(rng, tier_thorough=False, kind=None, big=False):
 
 
 def gen_mcscan(rng):
-    case = gen_case(rng, kind="ss")
+    case = gen_relaxing_case(rng) if rng.random() < 0.5 else gen_case(rng, kind="ss")
+    if case["cfg"] is not None:
+        case["cfg"]["fail"] = []
     case["kind"] = "mcscan"
     case["rows"] = [[i, r] for i, (_, r) in enumerate(case["rows"][:3])]
     case["order"] = []
@@ -322,13 +375,17 @@ def _inner_table(case):
     return pd.DataFrame([[L.fl(v) for v in r] for r in case["inner"]["rows"]], columns=case["inner"]["cols"])
 
 
-def _rows_of(df):
-    """DataFrame -> [[index tuple as floats, sorted [col, value]]] in row order"""
+def _rows_of(df, nan_rows=None):
+    """DataFrame -> [[index tuple as floats, sorted [col, value]]] in row order; a placeholder row
+    (nan_rows[i]) is compared by shape: column names only"""
     out = []
     for i in range(len(df)):
         idx = df.index[i]
         key = [float(x) for x in (idx if isinstance(idx, tuple) else (idx,))]
-        out.append([key, sorted([str(c), float(df.iloc[i][c])] for c in df.columns)])
+        if nan_rows is not None and nan_rows[i]:
+            out.append([key, sorted([str(c), "nan"] for c in df.columns)])
+        else:
+            out.append([key, sorted([str(c), float(df.iloc[i][c])] for c in df.columns)])
     return out
 
 
@@ -342,7 +399,9 @@ def run_real_mcscan(case, mode):
         with L.quiet():
             res = mc.scan_steady_state(m, to_scan=_inner_table(case), mc_to_scan=_table(case), y0=y0,
                                        max_workers=mode[1], integrator=L.make_integ(case["cfg"]))
-        return {"vars": _rows_of(res.variables), "flux": _rows_of(res.fluxes), "caller": _state(m)}
+        vn = list(m.get_variable_names())
+        nan_rows = [all(math.isnan(float(res.variables.iloc[i][c])) for c in vn) for i in range(len(res.variables))]
+        return {"vars": _rows_of(res.variables, nan_rows), "flux": _rows_of(res.fluxes, nan_rows), "caller": _state(m)}
     except Exception as e:  # noqa: BLE001
         return {"err": [type(e).__name__]}
 
@@ -361,9 +420,12 @@ def run_oracle_mcscan(case):
                         kv[c] = v
                 m = L.build_model(L.with_values(case["content"], list(kv.items())))
                 r = Simulator(m, integrator=L.make_integ(case["cfg"])).simulate_to_steady_state().get_result()
-                if isinstance(r.value, Exception):
-                    return {"err": ["oracle: failing rows are not generated in this stratum"]}
                 key = [float(label)] + [L.fl(x) for x in inner]
+                if isinstance(r.value, Exception):  # no steady state: NaN row of the right shape
+                    vcols = list(m.get_variable_names()) + list(m.get_derived_variable_names())
+                    vs.append([key, sorted([str(c), "nan"] for c in vcols)])
+                    fs.append([key, sorted([str(c), "nan"] for c in m.get_reaction_names())])
+                    continue
                 vs.append([key, sorted([str(c), float(r.value.variables.iloc[-1][c])] for c in r.value.variables.columns)])
                 fs.append([key, sorted([str(c), float(r.value.fluxes.iloc[-1][c])] for c in r.value.fluxes.columns)])
         mc_ = L.build_model(L.with_values(case["content"], case["y0"] or []))
@@ -392,9 +454,32 @@ def _independent(case, i, cfg):
     return m, (None if isinstance(r.value, Exception) else r.value)
 
 
+def success_index(case):
+    """time index of a successful row, from the request alone (the integrators' row layout:
+    `integrate(t_end, steps)` returns steps+1 points, `integrate_time_course` prepends t0)"""
+    import numpy as np
+
+    kind = case["kind"]
+    if kind == "ss":
+        return [0.0]  # the steady-state container keeps one row and drops the time
+    if kind == "tc":
+        tps = [L.fl(t) for t in case["tps"] if Fraction(t) >= 0]
+        return tps if tps and tps[0] == 0.0 else [0.0, *tps]
+    ends = [L.fl(t) for t, _ in case["proto"]]
+    if kind == "proto":
+        out, t0 = [], 0.0
+        for k, t_end in enumerate(ends):
+            grid = [float(x) for x in np.linspace(t0, t_end, case["steps"] + 1)]
+            out += grid if k == 0 else grid[1:]
+            t0 = t_end
+        return out
+    full = sorted(set(ends) | {L.fl(t) for t in case["tps"]})
+    return [0.0] + [t for t in full if 0.0 < t <= ends[-1]]
+
+
 def run_oracle(case):
-    """S: per row an independent run; failing row -> NaN block over the index of a successful run,
-    computed columns evaluated on the NaN state (so a flux that depends on no variable stays finite)"""
+    """S: per row an independent run; a row whose independent run fails -> NaN block with the shape of a
+    successful row (time grid from the request, columns from the model's names)"""
     import numpy as np
     import pandas as pd
 
@@ -402,18 +487,20 @@ def run_oracle(case):
         return run_oracle_mcscan(case)
     try:
         kind = case["kind"]
-        nofail = None if case["cfg"] is None else dict(case["cfg"], fail=[])
         per_row = []
         for i in range(len(case["rows"])):
             m, sim = _independent(case, i, case["cfg"])
             varnames = set(m.get_variable_names())
             if sim is None:
-                m2, ok = _independent(case, i, nofail)
-                if ok is None:
-                    return {"err": ["oracle: no successful run to take the shape from"]}
-                idx = ok.variables.index if kind != "ss" else pd.Index([0.0])
-                v = pd.DataFrame(np.full((len(idx), len(ok.variables.columns)), np.nan), index=idx, columns=ok.variables.columns)
-                f = pd.DataFrame(np.full((len(idx), len(ok.fluxes.columns)), np.nan), index=idx, columns=ok.fluxes.columns)
+                # the independent run itself reports failure (integration failure / no steady state):
+                # the scan must show a NaN block with the shape a successful row has.  That shape does
+                # not need a successful run: the time grid follows from the request (success_index),
+                # the columns from the model's names.
+                idx = pd.Index(success_index(case))
+                vcols = list(m.get_variable_names()) + list(m.get_derived_variable_names())
+                fcols = list(m.get_reaction_names())
+                v = pd.DataFrame(np.full((len(idx), len(vcols)), np.nan), index=idx, columns=vcols)
+                f = pd.DataFrame(np.full((len(idx), len(fcols)), np.nan), index=idx, columns=fcols)
             else:
                 v, f = sim.variables, sim.fluxes
             if kind == "ss":
@@ -588,13 +675,19 @@ def shape(case):
     scan_var = any(col in vs for col in case["cols"])
     return (f"{case['kind']}-cols{len(case['cols'])}-rows{min(len(case['rows']), 8)}{'+' if len(case['rows']) > 8 else ''}"
             f"-ia{min(ia, 2)}-{'scanvar' if scan_var else 'scanpar'}-{'euler' if case['cfg'] else 'lsoda'}"
-            f"-fail{min(len(case.get('fail_rows', [])), 2)}")
+            f"-fail{min(len(case.get('fail_rows', [])), 2)}{'-tol' if (case['cfg'] or {}).get('tol') else ''}")
 
 
 def judge_case(ctx, case, modes, S, Rs, Ms):
     nontrivial = ("res" in S and len(S["res"]) > 0) or "vars" in S
     ctx.count({k: v for k, v in case.items()}, shape(case), nontrivial)
     Sj = L.jnum(S)
+    if case["kind"] == "ss" and "res" in S and (case["cfg"] is None or case["cfg"].get("tol")):
+        # rows whose steady state is decided by a real convergence test (not by an injected failure)
+        tag = "lsoda" if case["cfg"] is None else "euler-tol"
+        for _, e in S["res"]:
+            k = f"ss-convergence-{tag}-{'no-steady-state' if e['nan'] else 'converged'}"
+            ctx.hist[k] = ctx.hist.get(k, 0) + 1
     for mode, R, M in zip(modes, Rs, Ms):
         sub = dict(case, modes=[mode])
         Rn = L.snap(S, R, TOL)
